@@ -660,6 +660,80 @@ impl MerkleTree {
         proof { let k = intmap::drain_keys(m0)[vp_i - 1]; assert(m0.contains_key(k) && *node == m0[k]); assert(m0[k].hash@.len() == 32); }
     @*/
 
+    /*@ fn src/tree/merkle_tree.rs MerkleTree::commit_truncation
+    tags: C01 C02 C05
+    requires:
+        changeset.ancestors <= 0xff_ffff_ffff
+    ensures:
+        final(self).roots == old(self).roots, final(self).length == old(self).length, final(self).byte_length == old(self).byte_length,
+        final(self).fork == old(self).fork, final(self).signature == old(self).signature,
+        // a changeset that keeps every block of the tree it was made from truncates nothing
+        changeset.ancestors >= changeset.original_tree_length ==> *final(self) == *old(self),
+        // otherwise the tree file is cut at the lowest head seen since the last flush ...
+        changeset.ancestors < changeset.original_tree_length ==> final(self).truncated
+            && final(self).truncate_to == (if old(self).truncated && old(self).truncate_to < changeset.ancestors { old(self).truncate_to } else { changeset.ancestors }),
+        // ... no node at or beyond the new head stays pending, every pending node below it stays pending,
+        // and a pending node is either what it was or a blank placeholder stored under its own index
+        changeset.ancestors < changeset.original_tree_length ==> forall|k: u64| #![trigger final(self).unflushed@.contains_key(k)]
+            final(self).unflushed@.contains_key(k) ==> k < 2 * changeset.ancestors,
+        forall|k: u64| #![trigger old(self).unflushed@.contains_key(k)]
+            old(self).unflushed@.contains_key(k) && k < 2 * changeset.ancestors ==> final(self).unflushed@.contains_key(k),
+        forall|k: u64| #![trigger final(self).unflushed@[k]] final(self).unflushed@.contains_key(k) ==>
+            (old(self).unflushed@.contains_key(k) && final(self).unflushed@[k] == old(self).unflushed@[k])
+            || (final(self).unflushed@[k].blank && final(self).unflushed@[k].index == k && final(self).unflushed@[k].length == 0 && k < 2 * changeset.ancestors)
+    sub `for node in self\.unflushed\.iter\(\) \{` => `let vp_pairs = intmap::vp_iter(&self.unflushed); for node in it: vp_pairs {`
+    sub `for index_to_delete in unflushed_indices_to_delete \{` => `for index_to_delete in it2: unflushed_indices_to_delete {`
+    before `loop {`:
+        proof { assert(p2(0) == 1); }
+    loop 1:
+        invariant
+            iter.wf(), head == 2 * changeset.ancestors, changeset.ancestors > 0, changeset.ancestors <= 0xff_ffff_ffff,
+            iter.offset as int * p2(iter.d@) <= changeset.ancestors - 1,
+            self.roots == old(self).roots, self.length == old(self).length, self.byte_length == old(self).byte_length, self.fork == old(self).fork,
+            self.signature == old(self).signature, self.truncated == old(self).truncated, self.truncate_to == old(self).truncate_to,
+            forall|k: u64| #![trigger old(self).unflushed@.contains_key(k)] old(self).unflushed@.contains_key(k) ==> self.unflushed@.contains_key(k),
+            forall|k: u64| #![trigger self.unflushed@[k]] self.unflushed@.contains_key(k) ==>
+                (old(self).unflushed@.contains_key(k) && self.unflushed@[k] == old(self).unflushed@[k])
+                || (self.unflushed@[k].blank && self.unflushed@[k].index == k && self.unflushed@[k].length == 0 && k < head)
+        decreases iter.offset
+    before `iter.parent();`:
+        proof { lemma_trunc_climb(iter.offset as int, iter.d@, changeset.ancestors - 1); }
+    before `self.truncated = true;`:
+        let ghost vp_mid = self.unflushed@;
+    loop 2:
+        invariant
+            self.roots == old(self).roots, self.length == old(self).length, self.byte_length == old(self).byte_length, self.fork == old(self).fork,
+            self.signature == old(self).signature, self.truncated,
+            self.truncate_to == (if old(self).truncated && old(self).truncate_to < changeset.ancestors { old(self).truncate_to } else { changeset.ancestors }),
+            changeset.ancestors <= 0xff_ffff_ffff,
+            forall|j: int| 0 <= j < unflushed_indices_to_delete@.len() ==> (#[trigger] unflushed_indices_to_delete@[j]) >= 2 * changeset.ancestors,
+            self.unflushed@ == vp_mid,
+            forall|k: u64| #![trigger vp_mid.contains_key(k)] vp_mid.contains_key(k) ==> exists|i: int| 0 <= i < vp_pairs@.len() && *(#[trigger] vp_pairs@[i]).0 == k,
+            forall|j: int| #![trigger vp_pairs@[j]] 0 <= j < it.index@ && *vp_pairs@[j].0 >= 2 * changeset.ancestors ==> unflushed_indices_to_delete@.contains(*vp_pairs@[j].0)
+    before `unflushed_indices_to_delete.push(*node.0);`:
+        let ghost vp_v0 = unflushed_indices_to_delete@;
+    after `unflushed_indices_to_delete.push(*node.0);`:
+        proof {
+            let v = unflushed_indices_to_delete@;
+            assert(v == vp_v0.push(*node.0));
+            assert(v[v.len() - 1] == *node.0);
+            assert forall|x: u64| vp_v0.contains(x) implies v.contains(x) by {
+                let i = choose|i: int| 0 <= i < vp_v0.len() && vp_v0[i] == x;
+                assert(v[i] == x);
+            }
+        }
+    loop 3:
+        invariant
+            self.roots == old(self).roots, self.length == old(self).length, self.byte_length == old(self).byte_length, self.fork == old(self).fork,
+            self.signature == old(self).signature, self.truncated,
+            self.truncate_to == (if old(self).truncated && old(self).truncate_to < changeset.ancestors { old(self).truncate_to } else { changeset.ancestors }),
+            forall|j: int| 0 <= j < unflushed_indices_to_delete@.len() ==> (#[trigger] unflushed_indices_to_delete@[j]) >= 2 * changeset.ancestors,
+            forall|k: u64| #![trigger vp_mid.contains_key(k)] vp_mid.contains_key(k) && k >= 2 * changeset.ancestors ==> unflushed_indices_to_delete@.contains(k),
+            forall|k: u64| #![trigger self.unflushed@.contains_key(k)] self.unflushed@.contains_key(k) ==> vp_mid.contains_key(k) && self.unflushed@[k] == vp_mid[k],
+            forall|k: u64| #![trigger vp_mid.contains_key(k)] vp_mid.contains_key(k) && k < 2 * changeset.ancestors ==> self.unflushed@.contains_key(k),
+            forall|j: int| #![trigger unflushed_indices_to_delete@[j]] 0 <= j < it2.index@ ==> !self.unflushed@.contains_key(unflushed_indices_to_delete@[j])
+    @*/
+
     /*@ fn src/tree/merkle_tree.rs MerkleTree::validate_hypercore_index
     tags: C09 C01
     result: r
@@ -925,4 +999,29 @@ pub proof fn lemma_contains_anc(it: flat_tree::Iterator, x: u64)
     flat_tree::lemma_span_anc(depth_of(x), offset_of(x), it.d@, it.offset as int);
     flat_tree::lemma_p2_4x();
     flat_tree::lemma_depth_bound(it, 43);
+}
+
+impl Node {
+    /*@ fn src/common/node.rs Node::new_blank
+    tags: C01 C05
+    result: r
+    ensures:
+        r.index == index, r.blank, r.length == 0, r.data is None
+    @*/
+}
+/// climbing from the last leaf below a head of `n + 1` blocks: while the node is not on the left edge it lies below 2^40
+pub proof fn lemma_trunc_climb(o: int, d: nat, n: int)
+    requires o >= 1, o * p2(d) <= n, n < 0x100_0000_0000
+    ensures d < 40, p2(d) <= n, o * p2(d + 1) <= 2 * n, p2(d + 1) <= 2 * n, (o / 2) * p2(d + 1) <= n
+{
+    flat_tree::lemma_p2_pos(d);
+    let q = p2(d);
+    assert(p2(d + 1) == 2 * q);
+    assert(o * q >= q) by (nonlinear_arith) requires o >= 1, q >= 1;
+    assert(o * (2 * q) == 2 * (o * q)) by (nonlinear_arith);
+    let h = o / 2;
+    assert(2 * h <= o);
+    assert(h * (2 * q) == (2 * h) * q) by (nonlinear_arith);
+    assert((2 * h) * q <= o * q) by (nonlinear_arith) requires 2 * h <= o, q >= 1;
+    if d >= 40 { flat_tree::lemma_p2_mono(40, d); flat_tree::lemma_p2_62(); }
 }
